@@ -60,7 +60,8 @@ def run(c):
             if queued == 0 or (fits and r.random() < 0.5):
                 k = r.choice([0, 0, 1, 2, 3, 16] + ([253] if r.random() < 0.1 else []))
                 bad = r.random() < 0.08
-                ops.append({"op": "send", "n": n, "fds": k, "salt": len(ops), "cred": r.random() < 0.3, "bad_fd": bad})
+                ops.append({"op": "send", "n": n, "fds": k, "salt": len(ops), "cred": r.random() < 0.3, "bad_fd": bad,
+                            "bad_val": r.choice([987654, -1, -1, -7]), "bad_pos": r.choice(["end", "start", "middle"])})
                 if not bad:
                     queued += 1
                     sizes.append(n)
@@ -191,6 +192,14 @@ def run(c):
             continue
         c.count(("framed", str(x["msgs"])), nontrivial=anyrej, klass="framed:" + ("rejecting" if anyrej else "clean"))
         items.append("(%s, %s)" % (coq_list(mm), coq_list(obs_ok)))
+    # ---- both directions of one framed connection at once (the host's and the container's send and receive loops run concurrently)
+    du = c.run_harness(exe, [{"id": 0, "kind": "duplex", "n": 400 if c.quick() else 4000, "size": 24000}], env=env, timeout=300)[0]
+    if "harness_err" in du:
+        raise RuntimeError(du["harness_err"])
+    c.count("framed-duplex", nontrivial=True, klass="framed:duplex")
+    if du["fail"]:
+        c.finding_or_violation({"kind": "framed-socket", "what": "messages are lost or changed when both directions of a connection are in use at once", "first": du["fail"][:80]},
+                               {"exchange": "400 messages of 24000 bytes in each direction, one sender and one receiver per endpoint", "observed": du}, klass="framed-duplex")
     body = HDR + "Definition cs := %s.\nDefinition M := Eval vm_compute in failing framed_ok cs.\nPrint M.\n" % coq_list(items)
     for i in nums(c.coq_eval("framed", body, timeout=900)):
         dis.append({"relation": "framed_ok (gob-framed history vs run_lost)", "history": fc[i]["msgs"], "observed": fo[i]["obs"]})
